@@ -111,6 +111,13 @@ def generate(rng, tier):
     # Markov chains source -> source -> target, in both source orders, for the measures built on paths / projections
     for i in range(4 if tier == 'quick' else 30):
         cases.append({'d': gen_dist(rng, 2, gate='chain'), 'cls': ['PID_CT', 'PID_Proj', 'PID_CT', 'PID_IG'][i % 4], 'perm': True, 'explicit': True})
+    # incomplete decompositions of three sources whose Moebius identity can hold at the top and fail below it
+    for i in range(4 if tier == 'quick' else 30):
+        if i % 2 == 0:
+            cases.append({'d': gen_dist(rng, 3, binary=True, gate='cat'), 'cls': 'PID_MES', 'perm': False, 'explicit': False})
+        else:
+            d = gen_dist(rng, 3, binary=True, gate=None)
+            cases.append({'d': d, 'cls': 'PID_RR', 'perm': False, 'explicit': False})
     # Gacs-Korner meets of three sources in which only some pair shares information
     for i in range(4 if tier == 'quick' else 30):
         cases.append({'d': gen_dist(rng, 3, gate='dup'), 'cls': 'PID_GK', 'perm': True, 'explicit': i % 2 == 0})
